@@ -412,6 +412,33 @@ func c17Subjects() []c17Subject {
 			return m
 		}),
 	)
+	// the sample window is documented as immutable: one instance shared by every goroutine
+	mkWin := func(name string, f func() *measurements.ImmutableSampleWindow) c17Subject {
+		return c17Subject{name, func() ([]c17Method, func()) {
+			w := f()
+			return []c17Method{
+				{"AddSample", true, func(g, a int) { n := w.AddSample(int64(a), int64(1+a%500), a%30); _ = n.AddDroppedSample(int64(a), a%50).MaxInFlight() }},
+				{"AddDroppedSample", true, func(g, a int) { n := w.AddDroppedSample(int64(a), a%40); _ = n.AddSample(int64(a), 7, a%60).String() }},
+				{"AddDroppedSampleNow", true, func(g, a int) { _ = w.AddDroppedSample(-1, a%40) }},
+				{"StartTimeNanoseconds", false, func(g, a int) { _ = w.StartTimeNanoseconds() }},
+				{"CandidateRTTNanoseconds", false, func(g, a int) { _ = w.CandidateRTTNanoseconds() }},
+				{"AverageRTTNanoseconds", false, func(g, a int) { _ = w.AverageRTTNanoseconds() }},
+				{"MaxInFlight", false, func(g, a int) { _ = w.MaxInFlight() }},
+				{"SampleCount", false, func(g, a int) { _ = w.SampleCount() }},
+				{"DidDrop", false, func(g, a int) { _ = w.DidDrop() }},
+				{"String", false, func(g, a int) { _ = w.String() }},
+			}, func() {}
+		}}
+	}
+	subs = append(subs,
+		mkWin("sample-window(new)", func() *measurements.ImmutableSampleWindow { return measurements.NewDefaultImmutableSampleWindow() }),
+		mkWin("sample-window(samples)", func() *measurements.ImmutableSampleWindow {
+			return measurements.NewDefaultImmutableSampleWindow().AddSample(1, 100, 3).AddSample(2, 50, 5)
+		}),
+		mkWin("sample-window(dropped)", func() *measurements.ImmutableSampleWindow {
+			return measurements.NewDefaultImmutableSampleWindow().AddSample(1, 100, 3).AddDroppedSample(2, 4)
+		}),
+	)
 	// registries
 	subs = append(subs,
 		c17Subject{"gometrics-registry", func() ([]c17Method, func()) {
@@ -550,7 +577,7 @@ func TestC17_api_Race(t *testing.T) {
 	kit.RequireMode(t, "race")
 	kit.Check(t, kit.Prop[c17Case]{
 		ID: "C17", Quick: 400, Thor: 5_000,
-		Rule: "subject (every limit, wrapper, strategy incl. partition objects, limiter stack, measurement, both registries) x 2-8 goroutines x 10-120 generated calls from the subject's table of exported methods (mutators, accessors, String, dynamic partitions, NotifyOnChange, Register*, Start/Stop), run under the Go race detector; non-trivial = >=2 goroutines sharing the object with >=1 mutator call",
+		Rule: "subject (every limit, wrapper, strategy incl. partition objects, limiter stack, measurement, shared sample window, both registries) x 2-8 goroutines x 10-120 generated calls from the subject's table of exported methods (mutators, accessors, String, dynamic partitions, NotifyOnChange, Register*, Start/Stop), run under the Go race detector; non-trivial = >=2 goroutines sharing the object with >=1 mutator call",
 		Gen:  genC17, Run: runC17, NoShrink: true,
 	})
 }
